@@ -187,7 +187,7 @@ def soup(draw, max_len=24):
 @st.composite
 def _collect(draw, thorough):
     if draw(st.integers(0, 3)) == 0:
-        instrs = draw(gen.model(max_steps=3, allow_nonsym_lmi=True))["instrs"]
+        instrs = draw(gen.model(max_steps=3, allow_nonsym_lmi=True, allow_redeclare=True))["instrs"]
     else:
         instrs = draw(soup(max_len=28 if thorough else 20))
     return {"kind": draw(st.sampled_from(["collect", "collect", "mosek"])), "instrs": instrs,
